@@ -43,6 +43,10 @@ CAN_CONTAIN_P = {
     "canvas": "inBody", "noscript": "inBody",
 }
 
+# foreign elements inside which HTML content is parsed (HTML integration points): a p can be their last child, and their
+# end tag then arrives while the (HTML) p is the current node, i.e. it is handled by the in-body end-tag rules
+FOREIGN_PARENTS_OF_P = {"desc": "svg", "title": "svg", "foreignObject": "svg", "annotation-xml": "mathml"}
+
 # next-element names that cannot conformingly be the first child of body (no finding is claimed for them)
 BODY_FIRST_CHILD_NONCONFORMING = {"base", "basefont", "bgsound", "noframes", "title", "head", "frameset", "body", "html",
                                   "command"}
@@ -133,6 +137,7 @@ def run(ctx):
                     "the filter omits </p> before </%s>, but %s does not generate implied end tags: with the p still open the "
                     "end tag is mis-handled (<%s><p>x</p></%s>z does not round-trip)" % (x, h.qual, x, x),
                     {"end_tag": x, "handler": h.qual}, detail={"end_tag": x, "handler": h.qual})
+        foreign_parent_cases(ctx, "R13.4b")
     else:
         r.ok("R13.4b", "p-before-end:<none>", fe.where)
 
@@ -161,6 +166,35 @@ def run(ctx):
                     "the filter omits <%s> before <%s>, but in the %s phase the handler %s does not create the %s element "
                     "first" % (tag, label, pk, h.qual, tag), {"omitted": tag, "next": label},
                     detail={"omitted_start": tag, "next": label, "handler": h.qual})
+
+
+def foreign_parent_cases(ctx, rid, only_namespaces=None):
+    """`</p>` omitted before the end tag of a foreign integration point (<svg><desc><p>x</p></desc>): on re-parse that end tag
+    is handled in the in-body mode with the HTML p as current node; unless its handler generates implied end tags it is
+    ignored at the special element p, the foreign parent stays open and following siblings are parsed in a different context."""
+    r = ctx.r
+    pm = model(ctx)
+    from .c13 import tables
+    fs, fe, names_s, tab_s, names_e, tab_e = tables(ctx)
+    implied = None
+    for n in ast.walk(ctx.repo.func("treebuilders/base.py", "TreeBuilder.generateImpliedEndTags").node):
+        if isinstance(n, ast.Compare) and isinstance(n.ops[0], ast.In):
+            v = ctx.ce.try_eval(n.comparators[0], ctx.repo.module("treebuilders/base.py"))
+            if isinstance(v, (set, frozenset)) and "dd" in v:
+                implied = v
+    p_before_end = any(v and tag == "p" and nty == "EndTag" for (tag, nty, nname, pv), v in tab_e.items())
+    hip = {name for ns, name in ctx.ce.const("constants.py", "htmlIntegrationPointElements")}
+    for x, nsk in sorted(FOREIGN_PARENTS_OF_P.items()):
+        if x not in hip or (only_namespaces is not None and nsk not in only_namespaces):
+            continue
+        h, how = pm.handler(pm.phases["inBody"], "EndTag", x.lower() if x.lower() in pm.table_names else FRESH)
+        good = (not p_before_end) or (h is not None and _implies_p(ctx, pm, h, x.lower(), implied or set()))
+        r.check(rid, good, "p-before-end:%s %s" % (nsk, x), fe.where,
+                "the filter omits </p> before </%s> (a %s integration point); the parser handles that end tag with %s, which does not "
+                "generate implied end tags: with the p still open the end tag is ignored, the %s element stays open and what follows "
+                "is parsed inside it (<%s><%s><p>x</p></%s>y does not round-trip)" % (
+                    x, nsk, h.qual if h else "?", x, "svg" if nsk == "svg" else "math", x, x),
+                {"end_tag": x, "namespace": nsk}, detail={"end_tag": x, "handler": h.qual if h else None})
 
 
 def _implies_p(ctx, pm, h, x, implied):
